@@ -15,7 +15,7 @@ from osaca.semantics import INSTR_FLAGS, ArchSemantics
 from vp.api import verdict, skip, shard, kf_state
 from vp.symx import pick, native
 from vp.synth import mk_model, mk_sem, add_entry, iform, class_reg
-from harness._ports import PORTS3, PORTS3M, subsets, uop, hall_ok, totals_ok, run_opt, build_kernel
+from harness._ports import PORTS3, PORTS3M, subsets, uop, hall_ok, hall_range_ok, totals_ok, run_opt, build_kernel
 
 SUB3 = subsets(3)  # 7 non-empty subsets
 
@@ -379,6 +379,12 @@ def _shipped_concrete(ex, mode):
             # the recorded second-pass finding)
             if not hall_ok(len(ports), us, p, tol, subset_clause=not (mode == 2 and overlap)):
                 ok = False
+        else:
+            # the load / store micro-ops are scaled by the model's multiplier for the data register's
+            # type, the register form's are not: bounds with the smallest / largest multiplier
+            mults = [v for key in ("load_throughput_multiplier", "store_throughput_multiplier") if key in m for v in m[key].values()]
+            if not hall_range_ok(len(ports), us, p, tol, min([1.0] + mults), max([1.0] + mults), subset_clause=not (mode == 2 and overlap)):
+                ok = False
         n_checked += 1
     return ok, n_checked > 0, {"kernel": EXAMPLES[ex][0], "arch": arch, "mode": ["uniform", "one pass", "two passes"][mode], "instructions": n_checked}
 
@@ -408,7 +414,7 @@ CELLS = {
     "opt_2x2": {"fn": opt_2x2, "tiers": ("thorough",), "bound": "two instructions with 2 micro-ops each over 14 forms (38416 kernels) x 1/2 passes", "budget": {"thorough": 1500}, "shards": 49},
     "opt_alt": {"fn": opt_alt, "bound": "3 single-micro-op instructions over the 7 one-cycle forms, the instruction at each position with a second alternative port assignment (dict port_uops); 1 or 2 passes", "budget": {"quick": 170, "thorough": 900}, "shards": 16},
     "opt_alt_full": {"fn": opt_alt_full, "tiers": ("thorough",), "bound": "same over all 14 forms (two-cycle forms included)", "budget": {"thorough": 1800}, "shards": 48},
-    "shipped": {"fn": shipped, "bound": "16 shipped example/test kernels on zen1/zen2/tx2 x {uniform, one pass, two passes}: per-instruction feasibility against the micro-ops the analysis reports (memory-composed forms on models with multipliers: sign and support only), totals = column sums",
+    "shipped": {"fn": shipped, "bound": "16 shipped example/test kernels on zen1/zen2/tx2 x {uniform, one pass, two passes}: per-instruction feasibility against the micro-ops the analysis reports (memory-composed forms on models with multipliers: bounds with the smallest and largest multiplier; the exact scaling is C08's), totals = column sums",
                 "budget": {"quick": 170, "thorough": 300}, "shards": 4},
     "opt_half": {"fn": opt_half, "bound": "two single-micro-op instructions with 0.5 or 1 cycle", "budget": {"quick": 120, "thorough": 300}},
 }
